@@ -62,6 +62,34 @@ theorem interleaved_queries (s : State I O) (i : I) :
     (run bal res s [.setInputs i, .query, .balance, .query, .result]).2.getLast? = some (.result (res i (bal i))) := by
   cases h1 : s.inputs <;> cases h2 : s.outputs <;> simp [run, step, h1, h2]
 
+/-! ### The number of points of a balance carries no trace of the balance before (D89) -/
+
+theorem filter_afterBalance (k : Nat) (units : List UnitLens) :
+    ((units.map (afterBalance k)).filter (!·.sharesAlways)).map (·.powerLen) =
+    (units.filter (!·.sharesAlways)).map (·.powerLen) := by
+  induction units with
+  | nil => rfl
+  | cons u us ih =>
+    cases h : u.sharesAlways <;> simp [afterBalance, h, List.filter_cons] at ih ⊢ <;> exact ih
+
+theorem modeLen_afterBalance (k : Nat) (units : List UnitLens) :
+    (units.map (afterBalance k)).map (·.modeLen) = units.map (·.modeLen) := by
+  induction units with
+  | nil => rfl
+  | cons u us ih => cases h : u.sharesAlways <;> simp [afterBalance, h] at ih ⊢ <;> exact ih
+
+/-- Whatever length `k` the balance before had: the units it wrote into do not change the number of points of the next one. -/
+theorem numberPoints_no_trace (k consumers : Nat) (srcStatus breakers : List Nat) (units : List UnitLens) :
+    numberPoints consumers srcStatus (units.map (afterBalance k)) breakers = numberPoints consumers srcStatus units breakers := by
+  unfold numberPoints
+  rw [filter_afterBalance, modeLen_afterBalance]
+
+/-- As found: after a balance of 5 points, constant consumers with source statuses of 3 points next to a load-sharing battery
+were taken for a calculation of 5 points (and refused, or calculated over 5 steps when everything was constant). -/
+theorem numberPoints_legacy_trace :
+    numberPointsLegacy 1 [3, 3] ([⟨1, true, 1⟩].map (afterBalance 5)) [] = 5 ∧
+    numberPoints 1 [3, 3] ([⟨1, true, 1⟩].map (afterBalance 5)) [] = 3 := by decide
+
 /-! ### Non-vacuity: the electric balance as the balance function -/
 
 def demo : List Electric.Swb := [⟨1, [⟨1000, true, 0⟩], [], [400]⟩]
